@@ -11,10 +11,16 @@ package props
 
 import (
 	"bytes"
+	"context"
 	"encoding/json"
 	"fmt"
+	"net"
+	"strings"
+	"sync/atomic"
 	"testing"
+	"time"
 
+	"github.com/varlink/go/varlink"
 	"pgregory.net/rapid"
 )
 
@@ -409,4 +415,120 @@ func FuzzC10(f *testing.F) {
 			t.Fatalf("C10 violated: %v", err)
 		}
 	})
+}
+
+// TestC10Vanished: "after the peer disappears mid-reply the connection's resources are released". A subscription
+// handler - the usual monitor pattern - keeps sending continues-replies until a reply attempt FAILS; the client reads a
+// few of them and vanishes. The handler must learn about it (its next reply attempts fail) and return, the connection
+// count must go back to zero, and Shutdown must end serving. A handler that is still producing replies for the vanished
+// client after the bound has been told that its writes succeed.
+// VanishCase: one subscription whose client vanishes.
+type VanishCase struct {
+	Transport string `json:"transport"`
+	Read      int    `json:"read"` // frames the client reads before it closes
+	Pad       int    `json:"pad"`
+}
+
+func execVanished(c VanishCase) error {
+	bound := protoBound * WatchdogScale()
+	env, err := startE2E([]string{"x.y"}, c.Transport, false)
+	if err != nil {
+		return err
+	}
+	var stop int32
+	var sent int64
+	ended := make(chan error, 1)
+	for _, si := range env.ifs {
+		si.Hook = func(ctx context.Context, call *varlink.Call, op Op) (OpResult, error) {
+			if op.Op != "stream" {
+				return OpResult{}, nil
+			}
+			pad := strings.Repeat("s", c.Pad)
+			var err error
+			for atomic.LoadInt32(&stop) == 0 {
+				call.Continues = true
+				if err = call.Reply(ctx, map[string]interface{}{"n": atomic.AddInt64(&sent, 1), "pad": pad}); err != nil {
+					break
+				}
+			}
+			ended <- err
+			return OpResult{}, err
+		}
+	}
+	var conn net.Conn
+	if c.Transport == "pipe" {
+		conn = env.fake.Connect()
+	} else {
+		network, target := "unix", env.sockPath
+		if c.Transport == "tcp" {
+			network, target = "tcp", env.address[len("tcp:"):]
+		}
+		for dl := time.Now().Add(bound); time.Now().Before(dl); {
+			if conn, err = net.Dial(network, target); err == nil {
+				break
+			}
+			time.Sleep(time.Millisecond)
+		}
+		if err != nil {
+			env.svc.Shutdown()
+			env.cleanup()
+			return fmt.Errorf("HARNESS: dial: %v", err)
+		}
+	}
+	b, _ := json.Marshal(ScriptParams{Conn: 0, ID: 0, Script: []Op{{Op: "stream"}}})
+	conn.SetWriteDeadline(time.Now().Add(bound))
+	conn.Write(append(EncodeCall("x.y.Monitor", b, true, false, false), 0))
+	if c.Read > 0 {
+		got, _, _ := readFrames(conn, c.Read, bound)
+		if fr, _ := SplitFrames(got); len(fr) < c.Read {
+			atomic.StoreInt32(&stop, 1)
+			conn.Close()
+			env.svc.Shutdown()
+			env.cleanup()
+			return fmt.Errorf("the subscriber received %d of the first %d replies", len(fr), c.Read)
+		}
+	}
+	conn.Close() // the subscriber vanishes while replies keep coming
+	select {
+	case herr := <-ended:
+		if herr == nil {
+			return fmt.Errorf("HARNESS: the stream handler stopped without a failing reply")
+		}
+	case <-time.After(bound):
+		n := atomic.LoadInt64(&sent)
+		atomic.StoreInt32(&stop, 1)
+		env.svc.Shutdown()
+		return fmt.Errorf("on %s the subscriber vanished after %d replies, but %v later the handler's reply attempts still do not fail (%d replies \"sent\" so far): the connection is never released", c.Transport, c.Read, bound, n)
+	}
+	return env.stop(bound)
+}
+
+var propC10Vanished = Register(Prop[VanishCase]{ID: "C10", Name: "C10vanished", Check: func(c VanishCase, st *Stats) error {
+	err := execVanished(c)
+	st.Case(HashOf(c), true, func() interface{} { return c }, "vanished-subscriber", "transport:"+c.Transport)
+	return err
+}})
+
+func TestC10Vanished(t *testing.T) {
+	var cases []VanishCase
+	for _, tr := range []string{"pipe", "unixabs", "tcp"} {
+		for _, rd := range []int{0, 3} {
+			for _, pad := range []int{10, 20000} {
+				cases = append(cases, VanishCase{tr, rd, pad})
+			}
+		}
+	}
+	shard, nshards := Shard()
+	i := 0
+	next := func() (VanishCase, bool) {
+		for i < len(cases) {
+			k := i
+			i++
+			if k%nshards == shard {
+				return cases[k], true
+			}
+		}
+		return VanishCase{}, false
+	}
+	RunCases(t, propC10Vanished, "C10Vanished", true, next)
 }
